@@ -418,7 +418,8 @@ func runStorm(ts *rig.TestServer, stateName string, seed int64, intruders, reqs 
 func controlPart() {
 	rs := run.Rand("control", 0)
 	opts := rig.ServerOpts{UDP: true, HandlerSet: "full", NoLog: true, OnEvent: onEvent, NoStream: true,
-		ReadTimeout: longTimeout, IdleTimeout: longTimeout, SenderReportPeriod: time.Hour, ReceiverReportPeriod: time.Hour}
+		ReadTimeout: longTimeout, IdleTimeout: longTimeout, SenderReportPeriod: time.Hour, ReceiverReportPeriod: time.Hour,
+		PreStart: installStartGates}
 	ts, err := rig.StartServer(opts)
 	if err != nil {
 		run.Fatal("control server: %v", err)
@@ -459,6 +460,18 @@ func controlPart() {
 	rs.Shuffle(len(cases), func(i, j int) { cases[i], cases[j] = cases[j], cases[i] })
 	run.Parallel(len(cases), func(_, i int) { runControl(servers[cases[i].Listen], cases[i]) }, func(i int, v any, stack string) {
 		run.Fatal("harness panic in control case %+v: %v\n%s", cases[i], v, stack)
+	})
+	// requests from another connection that race with the owner's PLAY / RECORD
+	var races []ctlCase
+	for rep := 0; rep < run.Pick(2, 10); rep++ {
+		for _, st := range []string{"pre-play-tcp", "pre-record-tcp"} {
+			for _, m := range ctlMethods {
+				races = append(races, ctlCase{Listen: "v4", State: st, Method: string(m), Origin: "same-ip-other-conn-racing-start", Seed: rs.Int63()})
+			}
+		}
+	}
+	run.Parallel(len(races), func(_, i int) { runControlRace(ts, races[i]) }, func(i int, v any, stack string) {
+		run.Fatal("harness panic in control race case %+v: %v\n%s", races[i], v, stack)
 	})
 	var wg sync.WaitGroup
 	for rep := 0; rep < run.Pick(1, 6); rep++ {
